@@ -13,6 +13,10 @@ import ctypes, fcntl, hashlib, json, os, random, re, shutil, struct, subprocess,
 ROOT = os.path.dirname(os.path.dirname(os.path.abspath(__file__)))
 REPO = os.environ.get("VERIF_REPO", "/repo")
 BUILD = os.path.join(ROOT, "build")
+# evidence/<id>.json is written by runs against /repo only; runs against another tree (VERIF_REPO, seeded mutations)
+# write their evidence elsewhere so that they can never overwrite the committed evidence
+EVIDENCE_DIR = os.environ.get("VERIF_EVIDENCE_DIR") or (os.path.join(ROOT, "evidence") if REPO == "/repo"
+                                                         else os.path.join(ROOT, "build", "evidence-other-tree"))
 COQ = os.path.join(ROOT, "coq")
 PY = "/venv/bin/python"
 JOBS = int(os.environ.get("VERIF_JOBS", "16"))
@@ -303,7 +307,7 @@ class Ctx:
         self.level = "proof"
         self.traces = 0
         self.libdir = None
-        os.makedirs(os.path.join(ROOT, "evidence"), exist_ok=True)
+        os.makedirs(EVIDENCE_DIR, exist_ok=True)
         os.makedirs(os.path.join(BUILD, "replay"), exist_ok=True)
 
     @property
@@ -421,7 +425,7 @@ class Ctx:
         ev = {"property_id": self.pid, "tier": self.tier, "seed": self.seed, "level": self.level,
               "coverage": cov, "assumptions": self.assumptions, "wall_s": round(wall, 2),
               "violations": len(self.violations)}
-        with open(os.path.join(ROOT, "evidence", self.pid + ".json"), "w") as f:
+        with open(os.path.join(EVIDENCE_DIR, self.pid + ".json"), "w") as f:
             json.dump(ev, f, indent=1, default=str)
         for key, what in self.known:
             print("KNOWN-FINDING: property=%s %s [%s]" % (self.pid, what, key))
